@@ -2,10 +2,10 @@
 # confirmseed.sh <seed-dir> <worktree>: run the seed's demonstration (demo/run.sh <worktree>) on the clean worktree
 # (must pass) and with patch.diff applied (must fail); prints both results; leaves the worktree clean.
 D=$(readlink -f "${1:?seed dir}"); WT=${2:?worktree}
-git -C "$WT" checkout -q -- . ; git -C "$WT" clean -fdq
+git -C "$WT" reset -q --hard; git -C "$WT" clean -fdq
 echo "--- unchanged:"; bash "$D/demo/run.sh" "$WT" 2>&1 | tail -${TAILN:-6}; rc0=${PIPESTATUS[0]}
 git -C "$WT" apply "$D/patch.diff" 2>/dev/null || git -C "$WT" apply -3 "$D/patch.diff" >/dev/null 2>&1 || { echo "patch does not apply"; exit 2; }
 git -C "$WT" diff > "$D/patch-on-head.diff"
 echo "--- with the change:"; bash "$D/demo/run.sh" "$WT" 2>&1 | tail -${TAILN:-6}; rc1=${PIPESTATUS[0]}
-git -C "$WT" checkout -q -- . ; git -C "$WT" clean -fdq
+git -C "$WT" reset -q --hard; git -C "$WT" clean -fdq
 echo "=== $(basename "$D"): unchanged rc=$rc0, changed rc=$rc1"
